@@ -111,6 +111,8 @@ type fsScenario struct {
 	Bound      *int
 	// RepeatFault: once the downstream has rejected a call it keeps rejecting (per channel) until the task is resumed
 	RepeatFault bool
+	// MaxMsgKB: the batcher's size threshold in KB (0 = default, far above everything the scenarios send)
+	MaxMsgKB int
 	// Gen: member of a generated family (sharded by scenario, not by subtree)
 	Gen bool
 }
@@ -184,6 +186,17 @@ func fsBuildLog(c *fsColl, sh *fsShard, seq *int) ([]*msgstream.MsgPack, []*fsSr
 				part, partID = "p1", c.ID*10+2
 			}
 			switch m.Kind {
+			case "bigins":
+				// an insert above the batcher's size threshold (MaxMsgSize, 1 KB in the scenarios that use it)
+				tm = &msgstream.InsertMsg{BaseMsg: bm, InsertRequest: &msgpb.InsertRequest{
+					Base: &commonpb.MsgBase{MsgType: commonpb.MsgType_Insert, Timestamp: ts, MsgID: int64(*seq)}, DbName: "default", CollectionName: c.Name, PartitionName: part,
+					CollectionID: c.ID, PartitionID: partID, ShardName: sh.SrcV, NumRows: 1, Version: msgpb.InsertDataVersion_ColumnBased,
+					RowIDs: []int64{int64(*seq) * 10}, Timestamps: []uint64{ts},
+					FieldsData: []*schemapb.FieldData{{Type: schemapb.DataType_Int64, FieldName: "pk", FieldId: 100, Field: &schemapb.FieldData_Scalars{Scalars: &schemapb.ScalarField{
+						Data: &schemapb.ScalarField_LongData{LongData: &schemapb.LongArray{Data: []int64{int64(*seq) * 100}}}}}},
+						{Type: schemapb.DataType_VarChar, FieldName: "blob", FieldId: 101, Field: &schemapb.FieldData_Scalars{Scalars: &schemapb.ScalarField{
+							Data: &schemapb.ScalarField_StringData{StringData: &schemapb.StringArray{Data: []string{strings.Repeat("x", 1500)}}}}}}},
+				}}
 			case "ins", "insPart":
 				tm = &msgstream.InsertMsg{BaseMsg: bm, InsertRequest: &msgpb.InsertRequest{
 					Base: &commonpb.MsgBase{MsgType: commonpb.MsgType_Insert, Timestamp: ts, MsgID: int64(*seq)}, DbName: "default", CollectionName: c.Name, PartitionName: part,
@@ -666,7 +679,7 @@ func (r *fsRun) config() *CDCServerConfig {
 		Retry:           config.RetrySettings{RetryTimes: 2, InitBackOff: 1, MaxBackOff: 1},
 		SourceConfig:    MilvusSourceConfig{ReplicateChan: "by-dev-replicate-msg", ChannelNum: 2, ReadChanLen: 16, TimeTickInterval: 500, DefaultPartitionName: "_default"},
 		MetaStoreConfig: CDCMetaStoreConfig{RootPath: vRoot, StoreType: "etcd"},
-		Packer:          msgpacker.PackerConfig{MaxCount: mc},
+		Packer:          msgpacker.PackerConfig{MaxCount: mc, MaxMsgSize: r.sc.MaxMsgKB},
 	}
 }
 
